@@ -786,9 +786,18 @@ def r3_refusal_paths(ctx):
     yield Ob('x12n_document:x12n_document segment not found falls back to the previous node', ok, ctx.floc(fn), '' if ok else 'fallback changed')
 
 
+def r4_shared_recogniser_total(ctx):
+    """the value recognisers run inside validation without a fence of their own: an exception leaving IsValidDataType
+    (unpacking a split into a fixed number of names, int() of text, an index) aborts the whole validation.  C13.R2 (shared)."""
+    from . import c13
+    for o in c13.r2_never_raises(ctx):
+        yield o
+
+
 RULES = [
     Rule('C07.R1', 'explicit raises escaping the entry points are all classified (documented / data-discharged / guarded)', r1_explicit_raises, floor=33),
     Rule('C07.R1b', 'segment-qualified designator literals are used on segments of that id', r1b_designators, floor=45),
     Rule('C07.R2', 'implicit raisers: stack, token index, int(), optional current nodes, child lookups, self-calls, unbound locals', r2_implicit, floor=30),
+    Rule('C07.R4', 'shared with C13.R2: no exception can leave the value recognisers', r4_shared_recogniser_total, floor=6),
     Rule('C07.R3', 'the documented refusal paths exist and visitor/callback fences are in place', r3_refusal_paths, floor=4),
 ]
